@@ -165,6 +165,9 @@ pub enum ReadMode {
     StopSending { at: u64, code: u64 },
     /// use receive_vectored with this many slots
     Vectored(usize),
+    /// read nothing, wait `delay_us` (the stream piles up in the receive buffer, possibly
+    /// completely), then reject it: stop_sending(code), or drop the handle when `drop` is set
+    RejectAfter { delay_us: u64, code: u64, drop: bool },
 }
 
 /// which of the library's write interfaces the sending task uses
